@@ -29,7 +29,7 @@ ASSUMPTIONS = [
     "attributed to the comma re-splitting mechanism (counterfactual)",
 ]
 FLOORS = {
-    "quick": {"readbacks": 30000, "views:reloaded": 5000, "views:disabled": 8000,
+    "quick": {"readbacks": 28000, "views:reloaded": 5000, "views:disabled": 7000,
               "multi-condition": 3000, "views:update": 3000},
     "thorough": {"readbacks": 1500000, "views:reloaded": 300000, "views:disabled": 300000,
                  "multi-condition": 100000, "views:update": 100000},
